@@ -175,6 +175,15 @@ func (fr *Frame) evalModLoc(env *Env, cl Clause) (out []modLoc) {
 		p := tv.V.(Ptr)
 		return []modLoc{{root: p.Root, path: p.Path, base: p.Base}}
 	case *ast.Ident:
+		if _, isName := env.names[x.Name]; !isName {
+			if o, ok := env.lookupPkgObj(x.Name).(*types.Var); ok && o.Pkg() != nil && o.Parent() == o.Pkg().Scope() {
+				for _, l := range leaves(o.Type()) {
+					name := "G|" + o.Pkg().Path() + "." + o.Name() + "|" + l.Path
+					fr.vc.heap(env.st, name, fr.vc.heapSortFor(name, l.Sort))
+				}
+				return []modLoc{{root: "G|" + o.Pkg().Path() + "." + o.Name(), base: "0"}}
+			}
+		}
 		tv := env.eval(x)
 		switch u := under(tv.T).(type) {
 		case *types.Pointer:
@@ -279,8 +288,65 @@ func (fr *Frame) frameGoal(root, path, base string) string {
 
 // ---- calls ----
 
+// hintName: the name under which a call is referred to by `assert before` clauses.
+func hintName(c *ssa.CallCommon) string {
+	if f := c.StaticCallee(); f != nil {
+		return f.Name()
+	}
+	if c.IsInvoke() {
+		return c.Value.Name() + "." + c.Method.Name()
+	}
+	if p, ok := c.Value.(*ssa.Parameter); ok {
+		return p.Name()
+	}
+	if b, ok := c.Value.(*ssa.Builtin); ok {
+		return b.Name()
+	}
+	return ""
+}
+
+func (fr *Frame) applyHints(c *ssa.CallCommon, pos token.Pos, st *State, instr *ssa.Call) {
+	if !fr.top || fr.contract == nil || len(fr.contract.Hints) == 0 || instr == nil {
+		return
+	}
+	vc := fr.vc
+	hn := hintName(c)
+	if hn == "" {
+		return
+	}
+	if fr.hintCount == nil {
+		fr.hintCount = map[string]int{}
+	}
+	if vc.dry == 0 {
+		fr.hintCount[hn]++
+	}
+	k := fr.hintCount[hn]
+	if vc.dry > 0 {
+		k = fr.hintCount[hn] + 1
+	}
+	for i, h := range fr.contract.Hints {
+		if h.Callee != hn || h.K != k {
+			continue
+		}
+		env := fr.baseEnv(st)
+		blk := instr.Block()
+		env.lookup = func(name string) (TV, bool) { return fr.resolveNameAt(name, blk, st) }
+		for _, ln := range h.Uses {
+			if strings.Contains(ln, "(") {
+				st.reach = vc.define("r", "Bool", and(st.reach, fr.applyLemma(env, ln, h.C)))
+			} else if vc.dry == 0 {
+				fr.assumeLemma(ln, st)
+			}
+		}
+		goal := fr.evalClause(env, h.C)
+		vc.addOblig("assert", fmt.Sprintf("%s#assert:%s@%d.%d", shortFuncName(vc.fn), hn, h.K, i+1), st, goal, pos, h.C.Text)
+		st.reach = vc.define("r", "Bool", and(st.reach, goal))
+	}
+}
+
 func (fr *Frame) execCall(c *ssa.CallCommon, pos token.Pos, st *State, instr *ssa.Call) Val {
 	vc := fr.vc
+	fr.applyHints(c, pos, st, instr)
 	if b, ok := c.Value.(*ssa.Builtin); ok {
 		return fr.execBuiltin(b, c, pos, st)
 	}
@@ -296,6 +362,13 @@ func (fr *Frame) execCall(c *ssa.CallCommon, pos token.Pos, st *State, instr *ss
 	callee := c.StaticCallee()
 	if callee == nil {
 		// dynamic call of a function value
+		if fr.top && fr.contract != nil && fr.contract.Calls != nil {
+			if p, ok := c.Value.(*ssa.Parameter); ok {
+				if sub := fr.contract.Calls[p.Name()]; sub != nil {
+					return fr.applySigContract(sub, c, nil, args, pos, st, fr.baseEnv(st).names)
+				}
+			}
+		}
 		if s, ok := fr.val(c.Value).(Scalar); ok {
 			if ci := vc.closures[s.T]; ci != nil {
 				return fr.inlineCall(ci.fn, args, ci.bindings, pos, st)
@@ -318,6 +391,9 @@ func (fr *Frame) execCall(c *ssa.CallCommon, pos token.Pos, st *State, instr *ss
 		return v
 	}
 	if ct := vc.eng.contractFor(callee); ct != nil {
+		if ct.Pure && callee.Signature.Results().Len() == 1 {
+			return fr.applyPure(ct, callee.String(), callee.Signature, nil, args, argTypes, pos, st, callee.Params)
+		}
 		return fr.applyContract(callee, ct, args, argTypes, pos, st)
 	}
 	if fr.canInline(callee) {
@@ -659,6 +735,13 @@ func (fr *Frame) execInvoke(c *ssa.CallCommon, pos token.Pos, st *State) Val {
 			dynTypes = fr.contract.Dyn[p.Name()]
 		}
 	}
+	if fr.top && fr.contract != nil && fr.contract.Calls != nil {
+		if p, ok := c.Value.(*ssa.Parameter); ok {
+			if sub := fr.contract.Calls[p.Name()+"."+c.Method.Name()]; sub != nil {
+				return fr.applySigContract(sub, c, recv, args, pos, st, fr.baseEnv(st).names)
+			}
+		}
+	}
 	dynFromContract := dynTypes != nil
 	if dynTypes == nil {
 		dynTypes = vc.eng.IfaceImpls[ifaceKey(c.Value.Type(), c.Method.Name())]
@@ -669,6 +752,9 @@ func (fr *Frame) execInvoke(c *ssa.CallCommon, pos token.Pos, st *State) Val {
 	// 2. contract on the interface method itself (preferred over the default closed-world split)
 	ikey := "(" + types.TypeString(types.Unalias(c.Value.Type()), nil) + ")." + c.Method.Name()
 	if ct, ok := vc.eng.Contracts[ikey]; ok && !dynFromContract {
+		if ct.Pure && c.Signature().Results().Len() == 1 {
+			return fr.applyPure(ct, ikey, c.Signature(), recv, args, argTypes, pos, st, nil)
+		}
 		return fr.applyIfaceContract(ct, c, recv, args, pos, st)
 	}
 	if dynTypes != nil {
@@ -748,12 +834,26 @@ func ifaceKey(t types.Type, method string) string {
 }
 
 func (fr *Frame) applyIfaceContract(ct *Contract, c *ssa.CallCommon, recv Val, args []Val, pos token.Pos, st *State) Val {
+	return fr.applySigContract(ct, c, recv, args, pos, st, nil)
+}
+
+// applySigContract applies a contract given on a signature (interface method, or a function-typed / interface-typed
+// parameter of the function under verification). base, if non-nil, supplies the enclosing function's names.
+func (fr *Frame) applySigContract(ct *Contract, c *ssa.CallCommon, recv Val, args []Val, pos token.Pos, st *State, base map[string]TV) Val {
 	vc := fr.vc
 	// find parameter names from the interface method's signature
 	sig := c.Signature()
 	env := &Env{vc: vc, names: map[string]TV{}, st: st}
 	env.pkg = vc.eng.Pkgs[ct.PkgPath]
-	env.names["self"] = TV{recv, c.Value.Type()}
+	for k, v := range base {
+		env.names[k] = v
+	}
+	if base != nil {
+		env.old = fr.entry
+	}
+	if recv != nil {
+		env.names["self"] = TV{recv, c.Value.Type()}
+	}
 	for i := 0; i < sig.Params().Len(); i++ {
 		n := sig.Params().At(i).Name()
 		if n == "" {
@@ -762,13 +862,18 @@ func (fr *Frame) applyIfaceContract(ct *Contract, c *ssa.CallCommon, recv Val, a
 		env.names[n] = TV{args[i], sig.Params().At(i).Type()}
 	}
 	short := strings.ReplaceAll(ct.Key, repoModule+"/", "")
+	if j := strings.Index(short, "$"); j >= 0 {
+		short = "call:" + short[j+1:]
+	}
 	vc.callCount[short]++
 	k := vc.callCount[short]
 	for i, cl := range ct.Requires {
 		goal := fr.evalClause(env, cl)
 		vc.addOblig("pre", fmt.Sprintf("%s#pre:%s@%d.%d", shortFuncName(vc.fn), short, k, i+1), st, goal, pos, cl.Text)
 	}
-	if ct.Trusted {
+	if base != nil {
+		vc.note("environment contract (assumed behaviour of a parameter of " + shortFuncName(vc.fn) + "): " + short)
+	} else if ct.Trusted {
 		vc.note("trusted contract used: " + ct.Key)
 	} else {
 		vc.note("interface contract used (implementations checked separately): " + ct.Key)
@@ -988,4 +1093,130 @@ func (vc *VC) pureCall(st *State, recv TV, name string, args []TV) (Val, types.T
 		return nil, nil, fmt.Errorf("method %s does not return exactly one value", name)
 	}
 	return res[0], m.Signature.Results().At(0).Type(), nil
+}
+
+
+// applyLemma instantiates a lemma at explicit arguments: returns (requires => ensures) as a ground fact in env's state.
+func (fr *Frame) applyLemma(env *Env, app string, at Clause) string {
+	vc := fr.vc
+	x, err := parseExprString(rewriteImplies(app))
+	if err != nil {
+		panic(contractError("bad lemma application " + app))
+	}
+	call, ok := x.(*ast.CallExpr)
+	if !ok {
+		panic(contractError("bad lemma application " + app))
+	}
+	name := types.ExprString(call.Fun)
+	key := vc.eng.qualifySpecName(fr.fn, name)
+	lf := vc.eng.FindFunc(key)
+	ct := vc.eng.Contracts[key]
+	if lf == nil || ct == nil || len(lf.Params) != len(call.Args) {
+		panic(contractError("unknown lemma or wrong argument count: " + app))
+	}
+	if ct.Trusted {
+		vc.note("trusted lemma (axiom) used: " + key)
+	} else {
+		vc.note("lemma used (proved separately as a ghost function): " + key)
+	}
+	lenv := &Env{vc: vc, pkg: vc.eng.Pkgs[ct.PkgPath], names: map[string]TV{}, st: env.st, old: env.st}
+	for i, p := range lf.Params {
+		tv := env.eval(call.Args[i])
+		if isUntyped(tv.T) {
+			tv = env.coerce(tv, p.Type())
+		}
+		lenv.names[p.Name()] = tv
+	}
+	var req, ens []string
+	for _, c := range ct.Requires {
+		req = append(req, fr.evalClause(lenv, c))
+	}
+	for _, c := range ct.Ensures {
+		ens = append(ens, fr.evalClause(lenv, c))
+	}
+	return implies(and(req...), and(ens...))
+}
+
+
+// pureApp builds the uninterpreted application that stands for the result of a `pure` function or interface method:
+// a function of the receiver and arguments only (heap-independent: immutable attributes, A-SEQ for tables).
+func (vc *VC) pureApp(key string, rt types.Type, recv Val, recvT types.Type, args []Val, argTypes []types.Type) Val {
+	var terms, sorts []string
+	if recv != nil {
+		for i, l := range leaves(recvT) {
+			terms = append(terms, flatT(recvT, recv)[i])
+			sorts = append(sorts, l.Sort)
+		}
+	}
+	for k, a := range args {
+		ts := flatT(argTypes[k], a)
+		for i, l := range leaves(argTypes[k]) {
+			terms = append(terms, ts[i])
+			sorts = append(sorts, l.Sort)
+		}
+	}
+	var outs []string
+	for _, l := range leaves(rt) {
+		f := sym("pure|" + key + "|" + l.Path)
+		if !vc.ufDecl[f] {
+			vc.ufDecl[f] = true
+			vc.emit(fmt.Sprintf("(declare-fun %s (%s) %s)", f, strings.Join(sorts, " "), l.Sort))
+		}
+		if len(terms) == 0 {
+			outs = append(outs, "("+f+")")
+			outs[len(outs)-1] = f
+		} else {
+			outs = append(outs, app(f, terms...))
+		}
+	}
+	v := build(rt, &outs)
+	if vc.inBinder == 0 {
+		vc.assert(vc.wfVal(rt, v))
+	}
+	return v
+}
+
+func (fr *Frame) applyPure(ct *Contract, key string, sig *types.Signature, recv Val, args []Val, argTypes []types.Type, pos token.Pos, st *State, params []*ssa.Parameter) Val {
+	vc := fr.vc
+	rt := sig.Results().At(0).Type()
+	var recvT types.Type
+	if recv != nil {
+		recvT = types.NewInterfaceType(nil, nil)
+	}
+	res := vc.pureApp(key, rt, recv, recvT, args, argTypes)
+	vc.note("pure function/method modelled as an uninterpreted function of its arguments (immutable attribute; A-SEQ): " + key)
+	fr.assumeBelowAlloc(st, rt, res)
+	env := &Env{vc: vc, pkg: vc.eng.Pkgs[ct.PkgPath], names: map[string]TV{}, st: st, old: st}
+	if recv != nil {
+		env.names["self"] = TV{recv, recvT}
+		for i := 0; i < sig.Params().Len(); i++ {
+			n := sig.Params().At(i).Name()
+			if n == "" {
+				n = fmt.Sprintf("arg%d", i)
+			}
+			env.names[n] = TV{args[i], sig.Params().At(i).Type()}
+		}
+	} else {
+		for i, p := range params {
+			env.names[p.Name()] = TV{args[i], p.Type()}
+		}
+	}
+	short := strings.ReplaceAll(key, repoModule+"/", "")
+	vc.callCount[short]++
+	k := vc.callCount[short]
+	for i, c := range ct.Requires {
+		vc.addOblig("pre", fmt.Sprintf("%s#pre:%s@%d.%d", shortFuncName(vc.fn), short, k, i+1), st, fr.evalClause(env, c), pos, c.Text)
+	}
+	tv := TV{res, rt}
+	env.names["result"] = tv
+	env.names["result0"] = tv
+	if n := sig.Results().At(0).Name(); n != "" && n != "_" {
+		env.names[n] = tv
+	}
+	var facts []string
+	for _, c := range ct.Ensures {
+		facts = append(facts, fr.evalClause(env, c))
+	}
+	st.reach = vc.define("r", "Bool", and(append([]string{st.reach}, facts...)...))
+	return res
 }
